@@ -1,5 +1,8 @@
 SPECIFICATION Spec
 CONSTANTS MaxLen = 8
+          MaxFill = 4
+          CoreFill = 0
           SimLens = {3, 4, 5, 6, 7, 8}
+          SimFill = {2, 3, 4}
 INVARIANT Emit
 CHECK_DEADLOCK FALSE
